@@ -740,6 +740,11 @@ def check(pid, argv=None):
             if key.startswith("copy:"):
                 run.report("hybrid-" + key, desc, rp)
         run.finish()
+    if run.replay and "place" in json.load(open(run.replay))["replay"]:
+        from . import place
+        place.replay(run, pid, json.load(open(run.replay))["replay"]["place"])
+        run.cov["traces_validated_against_impl"] = 1
+        run.finish()
     if run.replay and json.load(open(run.replay))["replay"].get("engine") == "handles":
         from . import handlemc
         handlemc.replay_one(run, json.load(open(run.replay))["replay"])
@@ -753,6 +758,11 @@ def check(pid, argv=None):
         else:
             hists = [make_history(g["pid"], g["seed"], g["index"])]
     else:
+        if pid in ("C01", "C11"):
+            from . import place
+            t1 = time.time()
+            place.model_level(run, pid)         # the placement decision table (spec/XoPlace.tla): every _context/_buffer/_offset combination
+            run.notes["t_placement_table"] = round(time.time() - t1, 1)
         if pid in ("C05", "C03"):
             from . import layoutmc
             t1 = time.time()
